@@ -316,3 +316,30 @@ PLANS["C11"] = {
          "the real async adapters are not run here; the harness is the caller of the same public poll_signal with its own callback"]),
     "floor": floor_counters(trials_consumer_paused=40, trials_closer_paused=6, poll_pending_results_checked=20),
 }
+
+# ------------------------------------------------------------------------------------------- C12
+
+
+def c12_steps(tier, seed):
+    q = tier == "quick"
+    st = [native("instance-scripts", ["w_instance", "--seed", seed, "--scripts", 400 if q else 6000], timeout=300 if q else 1800),
+          native("instance-all-numbers", ["w_instance", "--seed", seed + 1, "--scripts", 150 if q else 3000, "--all-numbers"], timeout=300 if q else 1800)]
+    if not q:
+        st.append(valgrind("instance-valgrind", ["w_instance", "--seed", seed + 2, "--scripts", 120], timeout=1800))
+    return st
+
+
+PLANS["C12"] = {
+    "steps": c12_steps,
+    "evidence": assemble(
+        "exploration",
+        "cases = generated scripts (6-12 steps over new(list) / add_signal(x) directly or through a handle clone / clone handle / "
+        "drop handle / drop instance / deliver / pending) run in a forked child with panics caught, for each of SignalOnly, "
+        "WithRawSiginfo, WithOrigin; x rotates through rejected numbers (forbidden, negative, >= 128, OS-rejected 0/32/33/65..127; the "
+        "all-numbers step rotates through every rejected number in [-2,130] and extreme integers). After every step the child "
+        "compares with a model: outcome class of the call, number of instance actions run by a delivery (hook count), wake bytes "
+        "per delivery (FIONREAD), set yielded by pending(), a foreign flag registration still working; at the end: fd table back to "
+        "baseline and no instance action runs. Child death (abort) is a violation. distinct = (exfiltrator, rejected number, class)",
+        ["expected class of a number comes from the published FORBIDDEN list, the documented panics and this kernel/glibc (0, 32, 33, >64 rejected)"]),
+    "floor": floor_counters(scripts_with_err_reject=30, scripts_with_panic_reject=30),
+}
